@@ -29,8 +29,8 @@ CHECKS = {
    note="trusted: harness model; pages in use and pool size are read through verif-tagged accessors; pages in use, queued and kept pages are read through verif-tagged accessors that walk the lists",
    tech="deterministic discrete-event simulation with fault injection; invariant audit after every event"),
  "C13": dict(cat="exploration", engine="des-defrag", ref="4 C13",
-   text="seeded deterministic simulation of fragmenting senders (headers 20-60 bytes, payloads up to the maximum 65535 minus header, cuts at multiples of 8), a reordering/duplicating/dropping network with key reuse, a hostile injector (conflicting overlaps, holes, undersized, beyond 65535, complete sets that are oversize only with their header, up to the maximum of 8190 fragments and beyond) and discard timers on a simulated clock in front of the real IPv4 defragmenter (and fragments in any order with duplicates in front of the IPv6 one); a per-key model of the received set decides at every call whether nothing, an error or exactly the original datagram must come back, every returned byte must have been placed at its offset by a received fragment, and a returned datagram is either a row of whole received fragments or contradicted by no received fragment (conflicting overlaps give an error or nothing).",
-   note="trusted: harness fragmenter and per-key model; fragments are built field by field with consistent Length; IPv6 behaviour after completion and IPv6 discard (reads the real clock) are not checked",
+   text="seeded deterministic simulation of fragmenting senders (headers 20-60 bytes, payloads up to the maximum 65535 minus header, cuts at multiples of 8), a reordering/duplicating/dropping network with key reuse, a hostile injector (conflicting overlaps, holes, undersized, beyond 65535, complete sets that are oversize only with their header, up to the maximum of 8190 fragments and beyond) and discard timers on a simulated clock in front of the real IPv4 defragmenter (and fragments in any order with duplicates in front of the IPv6 one, whose age-based discard is simulated inside a synctest bubble because it reads time.Now()); a per-key model of the received set decides at every call whether nothing, an error or exactly the original datagram must come back, every returned byte must have been placed at its offset by a received fragment, and a returned datagram is either a row of whole received fragments or contradicted by no received fragment (conflicting overlaps give an error or nothing).",
+   note="trusted: harness fragmenter and per-key model; fragments are built field by field with consistent Length; IPv6 behaviour after completion and the count returned by the IPv6 discard are not checked",
    tech="deterministic discrete-event simulation with network and hostile-input fault injection; reference-model oracle"),
  "C14": dict(cat="fault_enumeration", engine="sim-disk", ref="4 C14",
    text="seeded captures are written by the real pcap (us/ns) and pcapng writers into a simulated file; every written pcapng file is walked at byte level (block framing), the round trip is checked through a chunked simulated stream with the copying calls, the zero-copy calls and a drawn mix of both on one reader - whatever the copying call returned is examined again after all later reads - (and by libpcap for a seeded subset), and then the crash space is enumerated: the file is cut at every byte offset (exhaustive for files up to 2 KiB; all write boundaries +-2 plus a seeded sample beyond) and the reader must return exactly the wholly contained packets and then an EOF-class error. Exhaustive over cut positions per file; the files are seeded samples.",
